@@ -16,7 +16,7 @@ tvars == <<vars, l, l0, raw>>
 
 Starts == {i \in 1..Len(Trace) : Trace[i].ev = "Scenario"}
 
-ScnPod(s) == [frac |-> s.frac, mem |-> s.mem, dev |-> s.dev, ctr |-> s.ctr, fcn |-> s.fcn, sharing |-> s.sharing]
+ScnPod(s) == [frac |-> s.frac, mem |-> s.mem, dev |-> s.dev, ctr |-> s.ctr, fcn |-> s.fcn, sharing |-> s.sharing, cv |-> s.cv]
 
 TraceInit ==
   \E i \in Starts :
@@ -56,10 +56,17 @@ T_SKind(e) ==
 T_SExact(e) ==
   LET k == T_DKind(e) IN
   CASE k = "fraction" -> /\ e.s_portion.x = e.d_frac.x /\ e.s_count.x = T_DCountX(e) /\ e.s_mem.x = "0"
-                         \* accounted GPUs (two decimals per device) within half a centi-GPU per device
-                         /\ (T_DCountN(e) \in 1..64 => Abs(e.s_gpus.n - e.d_frac.n * T_DCountN(e)) <= HalfCenti * T_DCountN(e))
+                         \* accounted GPUs: the denoted fraction rounded to 1/100 GPU (half up, computed on the exact
+                         \* decimal value, not on a float: d_centi_lo = d_centi_hi unless the value sits exactly on a
+                         \* half), per device and in total (GPUs() and GetGpusQuota())
+                         /\ e.s_perdev_centi \in e.d_centi_lo..e.d_centi_hi
+                         /\ (T_DCountN(e) \in 1..64 =>
+                               /\ e.s_gpus_centi \in (e.d_centi_lo * T_DCountN(e))..(e.d_centi_hi * T_DCountN(e))
+                               /\ e.s_quota_centi = e.s_gpus_centi
+                               /\ e.s_gpus_centi = e.s_perdev_centi * T_DCountN(e))
     [] k = "memory"   -> e.s_mem.x = e.d_mem.x /\ e.s_count.x = T_DCountX(e)
     [] k = "whole"    -> e.s_count.x = e.d_gpu.x /\ e.s_portion.x = "1" /\ e.s_mem.x = "0"
+                         /\ e.s_gpus_centi = 100 * e.d_gpu.n /\ e.s_quota_centi = e.s_gpus_centi
     [] OTHER          -> e.s_count.x = "0" /\ e.s_mem.x = "0"
 
 \* ---- the binder's materialisation
@@ -117,7 +124,7 @@ D_ModelScheduler  == (pc = "done" /\ IsClass) => obs.s_kind = M_SchedKind(P)
 D_ModelFits       == (pc = "done" /\ IsClass /\ obs.d_wf /\ obs.admitted) => obs.fits = M_Fits(P)
 
 (* ---- scenario exporter ---- *)
-Export(p) == [frac |-> p.frac, mem |-> p.mem, dev |-> p.dev, ctr |-> p.ctr, fcn |-> p.fcn, sharing |-> p.sharing, sig |-> Sig(p)]
+Export(p) == [frac |-> p.frac, mem |-> p.mem, dev |-> p.dev, ctr |-> p.ctr, fcn |-> p.fcn, sharing |-> p.sharing, cv |-> p.cv, sig |-> Sig(p)]
 Emit == PrintT(ToJson(Export(pod)))
 GenNext == FALSE /\ UNCHANGED tvars
 GenInit == Init /\ l = 0 /\ l0 = 0 /\ raw = <<>>
